@@ -209,6 +209,64 @@ fn other_types(tier: Tier) -> (u64, Vec<Viol>) {
             report("f32", &ops, 0, w);
         }
     }
+    // an enum whose equality crosses variants (Cow::Borrowed("int") == Cow::Owned("int"))
+    {
+        use std::borrow::Cow;
+        let vals: [Cow<'static, str>; 4] = [Cow::Borrowed("int"), Cow::Owned("int".to_string()), Cow::Borrowed("x"), Cow::Owned("x".to_string())];
+        for ops in all_ops(4, tier.pick(4, 5)) {
+            n += 1;
+            let r = guarded(|| generic_hist(&[], &vals, &ops, &|a: &Cow<'static, str>, b: &Cow<'static, str>| a == b));
+            if let Some(w) = r.unwrap_or_else(|p| Some(format!("x: panic {}", p))) {
+                report("Cow<str>", &ops, 0, w);
+            }
+        }
+    }
+    // the same operation repeated many times in a row (a counter or heuristic inside an object that looks stateless),
+    // between every short prefix and every short continuation
+    {
+        let vals = [0u32, 0, 1, 2];
+        let short: Vec<Vec<(bool, usize)>> = all_ops(3, 2);
+        let prefixes: Vec<Vec<(bool, usize)>> = all_ops(3, 3);
+        let reps: Vec<usize> = match tier {
+            Tier::Quick => vec![8, 23, 24, 25, 32, 64, 255, 256],
+            Tier::Thorough => vec![2, 3, 4, 7, 8, 9, 15, 16, 17, 23, 24, 25, 31, 32, 33, 63, 64, 65, 127, 128, 255, 256, 257, 1024],
+        };
+        let mut work: Vec<(Vec<(bool, usize)>, (bool, usize), usize)> = vec![];
+        for p in &prefixes {
+            for v in 0..3usize {
+                for o in [(true, v), (false, v)] {
+                    for r in &reps {
+                        work.push((p.clone(), o, *r));
+                    }
+                }
+            }
+        }
+        let res: Vec<(u64, Option<(Vec<(bool, usize)>, String)>)> = work
+            .par_iter()
+            .map(|(p, o, r)| {
+                let mut cnt = 0;
+                for c in &short {
+                    let mut ops = p.clone();
+                    // index 1 of `vals` equals index 0: appending it creates duplicates, fetching it hits the first copy
+                    ops.extend(std::iter::repeat(*o).take(*r));
+                    ops.extend(c.iter().cloned());
+                    cnt += 1;
+                    let rr = guarded(|| generic_hist(&[], &vals[..3], &ops, &|a, b| a == b));
+                    if let Some(w) = rr.unwrap_or_else(|pp| Some(format!("x: panic {}", pp))) {
+                        return (cnt, Some((ops, w)));
+                    }
+                }
+                (cnt, None)
+            })
+            .collect();
+        for (k, bad) in res {
+            n += k;
+            if let Some((ops, w)) = bad {
+                let shown: Vec<(bool, usize)> = ops.iter().take(6).cloned().collect();
+                report("u32/repeated", &shown, ops.len(), w);
+            }
+        }
+    }
     // a comparison that panics in the middle of a scan: the operation is abandoned, nothing may have changed
     {
         let vals = [PanicEq(1), PanicEq(7), PanicEq(9)];
